@@ -122,6 +122,7 @@ RecvEv(rm, e) ==
                       ELSE [Park(rm, "own", "own") EXCEPT !.lastTx = e[2]]
     [] e[1] \in {"to", "close"} \/ (e[1] = "err" /\ e[2] = "read") -> RecvSilence(rm)   \* a failed write is not silence on the bus
     [] e[1] = "msg" -> RecvMsg(rm, e[2], e[3], e[4])
+    [] e[1] = "unread" -> RecvFail(rm, "C01:delivered-symbols-not-consumed")   \* the device handed out nothing of what the transport delivered
     [] OTHER -> rm
 
 
